@@ -260,8 +260,11 @@ def alphabet_for(triples, mps, tier):
     wlens = sorted({1, mps - 1, mps, mps + 1, 2 * mps, 0xFFFF} | set(lens) | {L + 1 for L in lens})
     sps = sorted({0, mps, 2 * mps, 3 * mps, 1, 0x7FF})
     if tier == "quick":
-        wlens = sorted({1, mps, mps + 1, 0xFFFF} | {lens[-1], lens[0] + 1})
-        sps = sorted({0, mps, 2 * mps, 1})
+        # the quick closure has to stay within ~10^5 netlist steps: one absent index, one type beyond the table,
+        # a wLength just above the packet size and an unbounded one, the packet-aligned offsets
+        absent = [absent[0], absent[-2]]
+        wlens = [mps + 1, 0xFFFF]
+        sps = [0, mps, 2 * mps]
     words = []
     for v in values + absent:
         for w in wlens:
